@@ -397,6 +397,25 @@ func genC17(c *Ctx) {
 		out := c.Emit(teiLine("tei", depth, joinStream(cmds, !c.R.Chance(1, 20))))
 		countTEI(c, out)
 	}
+	// pipelined controllers: the same kind of streams handed over in chunks that ignore line boundaries (1 byte, a few
+	// bytes, everything at once), among them streams whose LAST command is fatal after several answered `go`s - what was
+	// written for the earlier commands must be there when Run returns
+	n = c.Scale(300, 20000)
+	for i := 0; i < n; i++ {
+		cmds := randomHistory(c)
+		switch c.R.Intn(4) {
+		case 0:
+			cmds = append(cmds, "go", []string{"position startpos moves a1 a1", "teinewgame 9", "frobnicate", "position tps x3/x3 1 1", "position startpos moves zz"}[c.R.Intn(5)])
+		case 1:
+			cmds = append(cmds, "go", "go", "quit", "go")
+		}
+		chunk := []int{1, 2, 3, 7, 64, 1 << 20, 1 << 20, 1 << 20}[c.R.Intn(8)]
+		stream := joinStream(cmds, !c.R.Chance(1, 20))
+		line := teiLine("teibulk", 1, stream)
+		f := strings.SplitN(line, " ", 3)
+		out := c.Emit(f[0] + " " + f[1] + " " + strconv.Itoa(chunk) + " " + f[2])
+		c.Count("tei.bulk.chunk~" + strconv.Itoa(chunk) + "." + clip(out, 3))
+	}
 	// move lists that pass THROUGH a finished game and go on (Position.Move plays on; the declared position is the list's
 	// end): a later capture can take the road apart again, so `go` must answer for the live position
 	{
@@ -410,7 +429,7 @@ func genC17(c *Ctx) {
 		var mv []string
 		wasOver, live := false, false
 		ln := 4 + c.R.Intn(14)
-		for len(mv) < ln {
+		for tries := 0; len(mv) < ln && tries < 400; tries++ {
 			ms := p.AllMoves(nil)
 			if len(ms) == 0 {
 				break
@@ -418,7 +437,7 @@ func genC17(c *Ctx) {
 			m := ms[c.R.Intn(len(ms))]
 			next, err := p.Move(m)
 			if err != nil {
-				continue
+				continue // (a finished game may have no legal move left at all: the try cap ends the list)
 			}
 			p = next
 			mv = append(mv, ptn.FormatMove(m))
